@@ -4,7 +4,7 @@ from __future__ import annotations
 import ast
 
 from ..core import Ctx
-from ..model import norm
+from ..model import canon, canon_tree, norm
 from . import ilp, nbk
 
 SOFT, BEST = "Continuum.get_best_soft_alignment", "Continuum.get_best_alignment"
@@ -34,13 +34,17 @@ def run(ctx: Ctx):
     # R-C11-3 statement-level sibling comparison
     fs, fb = ctx.fn(SOFT, "R-C11-3"), ctx.fn(BEST, "R-C11-3")
 
-    def canon(f):
+    def canon_body(f):
+        # alpha-normalise every local of the function in one go, then compare statement by statement
+        import copy as _c
+        fn = _c.copy(f.node)
+        fn.body = [ast.copy_location(ast.Expr(value=ast.Constant(value="<solve step>")), x) if isinstance(x, ast.Try) else x for x in f.node.body]
+        renamed = canon_tree(fn, whole_function=True)
         out = []
-        for s in f.node.body:
+        for s in renamed.body:
             if isinstance(s, ast.Expr) and isinstance(s.value, ast.Constant):
-                continue
-            if isinstance(s, ast.Try):
-                out.append("<solve step>")
+                if s.value.value == "<solve step>":
+                    out.append("<solve step>")
                 continue
             if isinstance(s, ast.ImportFrom):
                 out.append("<import>")
@@ -54,7 +58,7 @@ def run(ctx: Ctx):
             t = t.replace("SoftAlignment", "Alignment")
             out.append(t)
         return out
-    a, b = canon(fs), canon(fb)
+    a, b = canon_body(fs), canon_body(fb)
     diffs = [(x, y) for x, y in zip(a, b) if x != y]
     ctx.check(len(a) == len(b) and not diffs, "R-C11-3", fs, None,
               f"all {len(a)} top-level statements outside the solve step are identical to get_best_alignment's (up to the result class)",
